@@ -38,14 +38,15 @@ theorem voted_handlers_verify_and_consume :
 /-- every `range` over a Go map in consensus-path code is on this allow-list; each entry is covered
     by an order-insensitivity argument (C07.endBlocker_removal_order_insensitive) -/
 theorem map_ranges_allowlisted :
-    mapRanges.all (fun e => e == ("x/locking/keeper.Keeper.EndBlocker", "lastSet")) = true := by decide
+    mapRanges.all (fun e => e == ("x/locking/keeper.Keeper.EndBlocker", "map[string]uint64")) = true := by decide
 
-/-- wall clock, randomness and goroutines occur only where a proposal is built or checked (and when
-    the engine client is dialled at start-up): never in transaction execution or block hooks -/
+/-- wall clock, randomness and goroutines are reachable only from where a proposal is built or checked (and from
+    `app.New`, which dials the engine client at start-up): never from transaction execution, block hooks, genesis or
+    request processing.  `nondetReach` attributes every use to the entry points it is reachable from, so renaming or
+    splitting the helper that reads the clock does not change the fact. -/
 theorem nondeterminism_confined :
-    nondetUses.all (fun e =>
-      ["app.ProvideEngineClient", "x/goat/keeper.Keeper.PrepareProposalHandler", "x/goat/keeper.Keeper.createEthBlockProposal",
-       "x/goat/keeper.Keeper.verifyEthBlockProposal"].contains e.1) = true := by decide
+    nondetReach.all (fun e =>
+      ["app.New", "x/goat/keeper.Keeper.PrepareProposalHandler", "x/goat/keeper.Keeper.ProcessProposalHandler"].contains e.1) = true := by decide
 
 /-! ### C08: the goroutines of the proposal handlers do not conflict -/
 
